@@ -75,7 +75,7 @@ theorem nonl_digits {s : Str} (h : allDigits s = true) : NoNl s := by
 
 theorem nonl_epochLine (hdr : List HdrRec) (e : Epoch) (h : e.wf hdr = true) : NoNl (epochLine e) := by
   simp only [Epoch.wf, IntCell.wf, NumCell.wf, Cell.wf, Bool.and_eq_true] at h
-  obtain ⟨⟨⟨⟨⟨⟨⟨⟨⟨⟨hy, hmo⟩, hd⟩, hh⟩, hmi⟩, hs⟩, hf⟩, hns⟩, _⟩, hc⟩, _⟩ := h
+  obtain ⟨⟨⟨⟨⟨⟨⟨⟨⟨⟨⟨_, hy⟩, hmo⟩, hd⟩, hh⟩, hmi⟩, hs⟩, hf⟩, hns⟩, _⟩, hc⟩, _⟩ := h
   unfold epochLine renderCells
   apply nonl_renderA
   apply nonl_zip
@@ -135,11 +135,14 @@ theorem nonl_fileLines (F : File) (hwf : F.wf = true) : ∀ l ∈ fileLines F, N
     exact nonl_rec kc.1 kc.2 (hok kc this).1
   · exact nonl_eoh
   · have hew := List.all_eq_true.mp heps e he
-    simp only [blockLines, List.mem_cons, List.mem_map] at hl0
-    rcases hl0 with rfl | ⟨r, hr, rfl⟩
+    obtain ⟨hsp, hsats⟩ := epoch_parts F.hdr e hew
+    simp only [blockLines, List.mem_cons, List.mem_append, List.mem_map] at hl0
+    rcases hl0 with rfl | ⟨kc, hkc, rfl⟩ | ⟨r, hr, rfl⟩
     · exact nonl_epochLine F.hdr e hew
-    · simp only [Epoch.wf, Bool.and_eq_true] at hew
-      exact nonl_satLine F.hdr r (List.all_eq_true.mp hew.2 r hr)
+    · have := hsp kc hkc
+      simp only [specialOk, Bool.and_eq_true] at this
+      exact nonl_rec kc.1 kc.2 this.1.1.2
+    · exact nonl_satLine F.hdr r (hsats r hr)
 
 /-- the lines Python's text-mode iteration yields for the rendered text are the rendered lines -/
 theorem lines_render (F : File) (hwf : F.wf = true) : ChainParser.fileLines (render F) = fileLines F :=
